@@ -97,7 +97,7 @@ def gen_case(rng):
     if rng.random() < 0.4:
         opts['terminal_set'] = rng.sample(list('ADOKYXM'), rng.randint(1, 6))
     if rng.random() < 0.4:
-        opts['regex'] = rng.sample(['A', 'D', '^A', 'D[0-9]+$', '[OK]', 'A[0-9]+D', '^[^M]', 'Y1|X1', '^M$|A'], rng.randint(1, 2))
+        opts['regex'] = rng.sample(['A', 'D', '^A', 'D[0-9]+$', '[OK]', 'A[0-9]+D', '^[^M]', 'Y1|X1', '^M$|A', r'^A\d+', r'\d\d', r'^(?!.*\d\d)', r'[A-Z]\d$', r'^\w+$', r'\D1', r'(?i)^a', r'^[ad0-9]+$'], rng.randint(1, 2))
     base.update({'opts': opts, 'copy': rng.random() < 0.5, 'hseed': rng.getrandbits(32)})
     return base
 
@@ -218,7 +218,7 @@ def run(run, rng):
                        'a context (X) segment counts 2 characters against --min_length and 4 against --max_length (every guess of a surviving structure must respect the bounds)',
                        'min/max 0 means "no bound"']
     for i in range(N[run.tier]):
-        run.guard(gen_case(rng), check_case, use_cli=(i % 15 == 7), seconds=200)
+        run.guard(gen_case(rng), check_case, use_cli=(i % 4 == 1), seconds=200)
 
 def replay(run, case):
     check_case(run, case['case'])
